@@ -184,6 +184,31 @@ func runC13(c *Ctx) {
 		c.R.Check(!bad, r5, m+" leaves Instance.running alone", c.Pos(fn.Pos()), "ok", m+" writes Instance.running: after a live swap the instance would look stopped (or a failed swap would mark it running twice)", true)
 	}
 
+	r7 := c.R.Rule("R7", "K6 the swap is awaited, not abandoned: lifecycle.ReconfigureProcessor hands ProcessorNode.Reconfigure a context without a deadline of its own (a timed-out wait returns an error while the node may still complete the swap: store and node then disagree)", 1)
+	if fn := c.SSA(r7, pLife, "(*Service).ReconfigureProcessor"); fn != nil {
+		recon := c.Fn(r7, pStream, "(*ProcessorNode).Reconfigure")
+		wt := c.W.ExtObj("context", "WithTimeout")
+		wd := c.W.ExtObj("context", "WithDeadline")
+		calls := kit.CallsTo(fn, Set(recon))
+		if len(calls) == 0 {
+			c.R.Fail(r7, "ReconfigureProcessor: node.Reconfigure", c.Pos(fn.Pos()), "no call of ProcessorNode.Reconfigure found")
+		}
+		for _, call := range calls {
+			a := call.Common().Args
+			bad := len(a) < 2 || kit.DerivesFrom(a[1], func(v ssa.Value) bool {
+				if ex, ok := v.(*ssa.Extract); ok {
+					v = ex.Tuple
+				}
+				cl, ok := v.(*ssa.Call)
+				if !ok {
+					return false
+				}
+				f := kit.CalleeOf(cl.Common())
+				return f != nil && (types.Object(f) == wt || types.Object(f) == wd)
+			})
+			c.R.Check(!bad, r7, "ReconfigureProcessor: waits for the node without a deadline of its own", c.Pos(call.Pos()), "caller's context", "ReconfigureProcessor bounds its wait for ProcessorNode.Reconfigure with context.WithTimeout/WithDeadline: when the bound expires while the node is already opening the new processor, the caller gets an error and rolls the store back while the node completes the swap", true)
+		}
+	}
 	r6 := c.R.Rule("R6", "K1/K3 live-swap pairing: closed callers; the store is updated before any node is swapped; a rollback restores the store before re-swapping and always restores it", 8)
 	c.WhoMayRef(r6, "processor.Service.UpdateWhileRunning", c.Fam(c.Fn(r6, pProc, "(*Service).UpdateWhileRunning")), []string{pProv + ".(updateProcessorAction).update"})
 	reconf := c.Fam(c.Fn(r6, pProv, "LifecycleService.ReconfigureProcessor"))
